@@ -212,6 +212,36 @@ Theorem C19_lifetime_boundary :
     expired ((ts + lifetime + 1) * giga + ns) ts lifetime = true.
 Proof. exact lifetime_boundary. Qed.
 
+(** histories on one Server: the answer to a call is the answer to that call alone, whatever
+    calls (logins, forged proofs, replays, reused payloads) were made before or after it.
+    Trivial in the model (the model of Server has no state); its content is the
+    correspondence kind c19.hist, which runs 2..6 calls sequentially and concurrently on ONE
+    tonconnect.Server value and compares each result with the model's result for the call alone. *)
+Theorem C19_history_independent :
+  forall H verify hmac b64 boc lib_ok ext_ok known secret domain lt_proof lt_payload before c after,
+    nth_error (server_history H verify hmac b64 boc lib_ok ext_ok known secret domain lt_proof lt_payload
+                              (before ++ c :: after)) (length before)
+    = Some (server_call H verify hmac b64 boc lib_ok ext_ok known secret domain lt_proof lt_payload c).
+Proof. exact history_independent. Qed.
+Print Assumptions C19_history_independent.
+
+Theorem C19_rejected_alone_rejected_in_history :
+  forall H verify hmac b64 boc lib_ok ext_ok known secret domain lt_proof lt_payload before c after k,
+    server_call H verify hmac b64 boc lib_ok ext_ok known secret domain lt_proof lt_payload c <> Ok k ->
+    nth_error (server_history H verify hmac b64 boc lib_ok ext_ok known secret domain lt_proof lt_payload
+                              (before ++ c :: after)) (length before) <> Some (Ok k).
+Proof. exact rejected_alone_rejected_in_history. Qed.
+
+(* a cache of verified state-inits keyed by the state-init text only (not by the address) is
+   refuted: own login, then the same state-init for a victim's address *)
+Theorem C19_addressless_cache_refuted :
+  (snd (w_cached_step [] w_forged) = Err EOther) /\
+  (w_stateless w_forged = Err EOther) /\
+  (w_stateless w_login = Ok w_attacker_key) /\
+  (snd (run_history w_cached_step [] (w_login :: w_forged :: nil)) = (Ok w_attacker_key :: Ok w_attacker_key :: nil)) /\
+  (map w_stateless (w_login :: w_forged :: nil) = (Ok w_attacker_key :: Err EOther :: nil)).
+Proof. exact addressless_cache_refuted. Qed.
+
 (** the defects repaired in ParseStateInit (model of the old code in TonConnectHistory.v) *)
 Theorem C19_F16_panicked_before_fix :
   check_proof_before_fix (fun x => x) (fun _ _ _ => false) (fun _ => Some []) (fun _ => Ok [w_root_empty])
